@@ -452,18 +452,20 @@ def handleDescriptives (op : String) (inp : Json) (impl : Option Json) : R (Opti
           | .error e => wingErrJ e)
       | "kaiser" => do
         let wd ← (match width with | some q => pure q | none => throw "width required")
-        if n ≥ 2 then
-          match width2wing wd n with
-          | .ok wing => if window.length ≠ 2 * wing + 1 then throw s!"kaiser window length {window.length} for wing {wing}"
-          | .error _ => pure ()
+        -- the window was made by the harness for the half-width the real `_width2wing` gave; a different
+        -- half-width in the model (float vs exact `ceil(n·width/2)`) is reported, not computed with
+        let mismatch : Bool := n ≥ 2 && (match width2wing wd n with
+          | .ok wing => window.length ≠ 2 * wing + 1
+          | .error _ => false)
+        if mismatch then pure (errJ "geometry") else
         pure (match Smooth.kaiser x wd window with
           | .ok l => okJ l
           | .error e => wingErrJ e)
       | "savgol" | "savgol_w" => do
-        if n ≥ 2 then
-          match savgolGeometry n width ww order nIter with
-          | .ok (_, w2, _, _) => if window.length ≠ w2 then throw s!"savgol coefficient count {window.length} for window {w2}"
-          | .error _ => pure ()
+        let mismatch : Bool := n ≥ 2 && (match savgolGeometry n width ww order nIter with
+          | .ok (_, w2, _, _) => window.length ≠ w2
+          | .error _ => false)
+        if mismatch then pure (errJ "geometry") else
         if name == "savgol" then
           pure (match Smooth.savgol x width ww order nIter window with
             | .ok l => okJ l
